@@ -157,6 +157,25 @@ class StackList:
         return StackList(self.count, list(self.views), self.tuple_kind)
 
 
+class KeyedLists:
+    """abstract family (indexed by k in [0, count)) of lists of tuples in which every tuple is
+    identified by a key (its first `nkey` fields): member(k, *key) -> Bool, payload(k, *key) ->
+    tuple of the remaining fields.  Appends happen in key order in the code under contract; what
+    contracts state is the membership relation and the payloads (DESIGN 5 C12)."""
+
+    def __init__(self, count, nkey, member, payload):
+        self.count = count
+        self.nkey = nkey
+        self.member = member
+        self.payload = payload
+
+
+class KeyedListRef:
+    def __init__(self, parent, k):
+        self.parent = parent
+        self.k = k
+
+
 class Undefined:
     def __repr__(self):
         return "Undefined"
